@@ -85,6 +85,9 @@ def replay_walk(ctx, steps):
         try:
             if op == "new":
                 res = Wavefunction(vec_py(st["vec"]) if any("s" in a for a in st["vec"]) else np.array(vec_py(st["vec"]), dtype=complex))
+            elif op == "dicke":
+                nz = [i for i, a in enumerate(st["vec"]) if a["n"][:4] != [0, 0, 0, 0]]
+                res = Wavefunction.dicke_state(len(st["vec"]).bit_length() - 1, bin(nz[0]).count("1"))
             elif op == "set":
                 pool[o - 1][st["i"]] = amp_py(st["val"])
             elif op == "bind":
@@ -115,7 +118,9 @@ def replay_walk(ctx, steps):
             else:
                 return [("outcome:" + op, "%s: real outcome %s, specification %s" % (where, out, st["out"]))]
         if out == "ok":
-            if op in ("new", "flip", "saveload"):
+            if op in ("new", "flip", "saveload", "dicke"):
+                if any(res is x for x in pool):
+                    return [("aliased:" + op, "%s: %s returned an object that is already live (two handles to one mutable object)" % (where, op))]
                 pool.append(res)
             elif op == "bind":
                 if st["res"] == o:
